@@ -10,7 +10,7 @@ ENGINES = [
     dict(name="kani-harnesses", path="/verif/vk/kani_unit.py", serves_properties=["C01", "C02", "C08", "C09", "C12"],
          kind_free_text="cargo kani on the real crate; harness files /verif/kani/*_proofs.rs are compiled into the defining modules through cfg(kani) hooks; "
                         "loop-free full-domain harnesses are complete, harnesses with symbolic strings are bounded stand-ins and never counted as proved"),
-    dict(name="verus-units", path="/verif/vk/verus_unit.py", serves_properties=["C01", "C02", "C03", "C08", "C09", "C10", "C12", "C13", "C15", "C16", "C19"],
+    dict(name="verus-units", path="/verif/vk/verus_unit.py", serves_properties=["C01", "C02", "C03", "C08", "C09", "C10", "C12", "C13", "C15", "C16", "C17", "C19"],
          kind_free_text="mechanical extraction of the real functions (vk/extract.py, rules R1-R8) + contracts/<unit>.vc, discharged by Verus 0.2026.09.13 / Z3; "
                         "every diagnostic is mapped back to a named obligation (function::label)"),
 ]
@@ -97,6 +97,17 @@ CHECKS = {
         level_note="The crash/restart half of C16 (flag, key map and oplog write order under kill at any instant) is NOT decided. Invariants on the maps loaded "
                    "from disk are preconditions. Sequential semantics.",
     ),
+    "C17": dict(
+        engine="verus-units", design_ref="DESIGN.md §5 C17 (added in §10)", technique="deductive verification (Verus/Z3) of function contracts on extracted real code, incl. one dispatcher arm (R10), plus accounting lemmas",
+        text="For all states: the REAL UseDb arm of the dispatcher raises the counter of the selected database by one and releases the database the session had "
+             "selected before (re-selecting the same database is neutral), a refused use-db moves no counter; Client::left lowers the counter of the selected "
+             "database by one and touches no other; inc/dec never overflow or underflow under the accounting invariant; set_connection_counter writes the "
+             "counter's text under $connections through set_key_value (whose watchers are notified). Lemmas: if every counter equals the number of sessions "
+             "counting for its database, it still does after any select / leave step - hence after any finite sequence - and a counter some session counts for is "
+             "positive, which is exactly the precondition of the decrements.",
+        level_note="Sequential semantics. That the three transports call Client::left exactly once per ended session is glue (checked only by the bounded "
+                   "sweep through the public API). get_mut / mem::replace have trusted specs.",
+    ),
     "C19": dict(
         engine="verus-units", design_ref="DESIGN.md §5 C19", technique="deductive verification (Verus/Z3) of function contracts on extracted real code",
         text="Sequential half, for all states and versions: on a newer-strategy database set_key_value / apply_change_to_db_try_fix_conflicts / "
@@ -135,7 +146,6 @@ NOT_APPLICABLE = {
     "C07": "Election outcome depends on timers, thread sleeps and message interleavings; election_eval's comparison is inseparable from the blocking start_election it calls.",
     "C11": "Crash points of a writer are not expressible as pre/postconditions of a call; neither verifier has a crash-consistent file model.",
     "C14": "A bound on inter-node traffic is a global ranking argument over the dispatcher and the replication loop on several nodes.",
-    "C17": "The counter's balance is decided in the use-db arm of the dispatcher (previous selection is not released there); inc/dec/left contracts alone do not carry the property.",
     "C18": "Both S3 strategies are async AWS-SDK network code inside a tokio runtime.",
     "C20": "Alignment depends on which handlers push on the client channel while also returning an error - a fact about the dispatcher; process_commands alone cannot be given a contract that is not an assumption of the conclusion.",
 }
